@@ -147,6 +147,7 @@ def extract_unit(name, repo=None):
     repo = repo or REPO
     tpath = os.path.join(VERIF, "units", name + ".rs")
     unit = Unit(name)
+    rulesmod.LITS.clear()
     _process(unit, tpath, repo)
     return unit
 
@@ -202,6 +203,10 @@ def _process(unit, tpath, repo):
             vis = kv.get("vis", "pub")
             unit.items.append({"file": f, "path": path, "lines": [_line_of(src, start), _line_of(src, it.end)], "sha256": sha(orig)})
             unit.emit((vis + " " if vis != "none" else "") + text, {"kind": "src", "file": f, "line0": _line_of(src, start), "fn": None})
+            i += 1
+            continue
+        if s.startswith("//@lits"):
+            unit.emit(rulesmod.lits_module(), {"kind": "gen", "file": "<generated byte-literal constants (rule R22)>", "line": 0})
             i += 1
             continue
         if s.startswith("//@canary_false"):
